@@ -142,7 +142,8 @@ Lemma findtype_paths_conform :
   | Some m, Some f =>
       negb (Nat.eqb (List.length findtype_paths) 0)
       && forallb (conforms m f) findtype_paths
-      (* hit, miss+error and miss+store are all present *)
+      (* the dependency answer (no access), hit, miss+error and miss+store are all present *)
+      && existsb (fun p => Nat.eqb (List.length (filter (on_mf m f) p)) 0) findtype_paths
       && existsb (fun p => Nat.eqb (List.length (filter (on_mf m f) p)) 3) findtype_paths
       && existsb (fun p => Nat.eqb (List.length (filter (on_mf m f) p)) 5) findtype_paths
       && existsb (fun p => Nat.leb 6 (List.length (filter (on_mf m f) p))) findtype_paths
